@@ -35,6 +35,7 @@ func checkC15(r *core.Run) {
 	c15Bytewise(r, p)
 	c15SymbolRange(r, p)
 	c15Sym(r, p)
+	c15RawToDecoder(r, p, "R-C15-guards")
 }
 
 func c15Tables(r *core.Run, p *core.Program) {
@@ -717,4 +718,49 @@ func c15Ints(m map[int]bool) string {
 	}
 	sort.Ints(ks)
 	return strings.Trim(strings.Join(strings.Fields(fmt.Sprint(ks)), ","), "[]")
+}
+
+// c15RawToDecoder: the mixed-case and character-set refusals are made by the Bech32 decoder on the string it
+// is given.  A caller that maps the string's case (or otherwise rewrites it) before the decoder sees it
+// removes exactly what those tests look at: every call of the decoder in the module passes an address
+// string that no case-mapping or rewriting function has touched.
+func c15RawToDecoder(r *core.Run, p *core.Program, rule string) {
+	rewriters := map[string]bool{"strings.ToLower": true, "strings.ToUpper": true, "strings.Map": true, "strings.ToTitle": true, "strings.ToValidUTF8": true,
+		"strings.Replace": true, "strings.ReplaceAll": true, "strings.Title": true, "bytes.ToLower": true, "bytes.ToUpper": true, "bytes.Map": true,
+		"strings.ToLowerSpecial": true, "strings.ToUpperSpecial": true, "unicode.ToLower": true, "unicode.ToUpper": true, "strings.EqualFold": true}
+	n := 0
+	for _, fn := range p.ModuleFuncs() {
+		for _, c := range an.CallsTo(fn, false, "lib/others/bech32.SegwitDecode", "lib/others/bech32.Decode") {
+			if fn.Pkg != nil && strings.HasSuffix(fn.Pkg.Pkg.Path(), "lib/others/bech32") && an.CallName(c) == "lib/others/bech32.Decode" {
+				continue // SegwitDecode's own call: its argument is judged at SegwitDecode's callers
+			}
+			n++
+			args := c.Common().Args
+			addr := args[len(args)-1]
+			bad := ""
+			seen := map[ssa.Value]bool{}
+			var walk func(v ssa.Value, d int)
+			walk = func(v ssa.Value, d int) {
+				if v == nil || seen[v] || d > 30 {
+					return
+				}
+				seen[v] = true
+				if cl, ok := v.(*ssa.Call); ok {
+					if rewriters[an.CallName(cl)] {
+						bad = an.CallName(cl) + " at " + p.Pos(cl.Pos())
+					}
+				}
+				if ins, ok := v.(ssa.Instruction); ok {
+					for _, op := range ins.Operands(nil) {
+						if *op != nil {
+							walk(*op, d+1)
+						}
+					}
+				}
+			}
+			walk(addr, 0)
+			r.Check(bad == "", rule, "decoder-sees-input/"+core.FuncName(fn), p.Pos(c.Pos()), "the address string reaches the Bech32 decoder unmodified", "the address string handed to the Bech32 decoder was rewritten by "+bad+": the decoder's mixed-case / character tests no longer see the input")
+		}
+	}
+	r.Check(n >= 1, rule, "decoder-sees-input/sites", "-", fmt.Sprintf("%d decoder call sites", n), "no call of the Bech32 decoder found")
 }
